@@ -76,6 +76,13 @@ impl Run {
     /// record a distinct non-trivial case by its content hash
     pub fn nontrivial(&self, h: u64) { self.inner.lock().unwrap().distinct.insert(h); }
     pub fn count(&self, key: &str) { self.add(key, 1); }
+    /// `label:<l>` counters for all labels of one case, under one lock (a case with long values carries thousands of labels)
+    pub fn count_labels(&self, labels: &[&'static str]) {
+        let mut local: std::collections::BTreeMap<&'static str, u64> = std::collections::BTreeMap::new();
+        for l in labels { *local.entry(l).or_insert(0) += 1; }
+        let mut g = self.inner.lock().unwrap();
+        for (l, n) in local { *g.counters.entry(format!("label:{}", l)).or_insert(0) += n; }
+    }
     pub fn counter(&self, key: &str) -> u64 { self.inner.lock().unwrap().counters.get(key).copied().unwrap_or(0) }
     pub fn add(&self, key: &str, n: u64) { *self.inner.lock().unwrap().counters.entry(key.to_string()).or_insert(0) += n; }
     pub fn sample(&self, v: Value) {
